@@ -555,7 +555,10 @@ def run(rec, F, S):
             if "eliminate_drop" in called:
                 conds = [n for n in fs.notes if n[0] == "cond" and n[2] is True]
                 b0, b2 = (pops[0]["binds"] + [None])[0], (pops[2]["binds"] + [None])[0] if len(pops) > 2 else None
-                okg = any(b0 and b2 and b0 in n[1] and b2 in n[1] and "==" in n[1] for n in conds)
+                def is_eq(c):
+                    c2 = re.sub(r"[()*&\s]", "", c)
+                    return bool(b0 and b2) and c2 in ("%s==%s" % (b0, b2), "%s==%s" % (b2, b0))
+                okg = any(is_eq(n[1]) for n in conds)
                 v0, v2 = list(pops[0]["variants"])[0], list(pops[2]["variants"])[0]
                 okt = v0.startswith("Set") and v2.startswith("Get") and v0[3:] == v2[3:] and list(pops[1]["variants"]) == ["Drop"]
                 rec.inst(R, "P5:%s same-slot guard and twin ops" % pname, ok=okg and okt, loc=loc)
